@@ -28,6 +28,8 @@ def entities(C, tier):
     ref = C["ref"]
     E = dict(C["E"])
     out = {"F1": E["F1"], "F2": E["F2"], "F3": E["F3"], "M1": E["M1"], "D1": E["D1"]}
+    if "K1" in E:
+        out["K1"] = E["K1"]   # movie and cache files share a folder (and a glob pattern when the extension is open)
     # second asset file, a shot file and a shot cache-node file
     f1 = E["F1"].split("/")
     names = [i for i, (k, p) in enumerate(ref.templates[ref.natural(E["F1"])[0]]) if p is None]
@@ -43,7 +45,7 @@ def entities(C, tier):
         if len(ref.keys(longest)) > len(ref.keys(other_base[0])):
             out["N1"] = conc[longest]
     if tier != "thorough":
-        for k in ("M1", "D1", "A2"):
+        for k in ("D1", "A2", "F3"):
             out.pop(k, None)
     return out
 
